@@ -76,6 +76,9 @@ func (x *Exec) checkGuard(fr *Frame, st *State, p Val, write bool, ins ssa.Instr
 	} else {
 		goal = Term{app(">=", held, intLit(1)), "Bool"}
 	}
+	// an object allocated by this very call is not shared yet: initialising its
+	// fields needs no lock
+	goal = mkOr(goal, Term{app(">", p.Addr.Ref, x.entry.Alloc), "Bool"})
 	name := x.safetyName("lock-"+kind, fr, ins, what)
 	x.oblige("lock", name, st.Guard, goal, fmt.Sprintf("%s of guarded field %s without holding its mutex (%s)", kind, what, map[bool]string{true: "exclusively", false: "at least shared"}[write]), pos, true)
 }
